@@ -61,9 +61,18 @@ class C13(GProp):
                     add(t, g, 0, le='lf', tab=4)
                     add(t, ['recoverdef', ['before', 'Semi'], g], 1)
         for i in range(1500 if tier == 'quick' else 20000):
-            k = r.below(4)
+            k = r.below(5)
             t = spangen.random_text(r, ['a', 'b', 'c', 'comma', 'sp', 'sp', 'TAB', 'LF', 'e2', 'bang'], 12)
-            if k == 3:
+            if k == 4:
+                # a leaf that fails right after the filter was relaxed, with a look-ahead buffered across filtered tokens
+                # before the change (capture wrappers, seq_count stopping at a mismatch, up_to's terminator check)
+                leaf = r.choice([['one', 'C'], ['any', 'C', 'Comma'], ['anyidx', 'C'], ['seq', 'C', 'A'], ['pred', ['is', 'C']], 'eot'])
+                inner = r.choice([['unfiltered', leaf], ['filterwith', ['keep', 'A', 'B', 'C', 'Ws', 'Comma'], leaf], ['unfiltered', ['both', ['maybe', ['one', 'C']], leaf]]])
+                wrap = r.choice([lambda x: [r.choice(['spanned', 'text']), x], lambda x: ['both', ['seqcount', 'C'], x],
+                                 lambda x: ['right', ['maybe', ['one', 'C']], x], lambda x: x])
+                g = ['both', r.choice([['one', 'A'], ['seq', 'A', 'B'], ['upto', ['one', 'A'], ['B', 'Comma']]]), wrap(inner)]
+                t = r.choice([['a'], ['a', 'b'], ['a', 'sp', 'b']]) + spangen.random_text(r, ['sp', 'sp', 'TAB', 'LF', 'b', 'a', 'comma'], 1 + r.below(4))
+            elif k == 3:
                 # boundary and count errors (C11 family): an item followed by something that is neither separator nor abort
                 # token, with and without a separator / abort token further on, texts ending in filtered tokens or a rejected char
                 item = r.choice([['one', 'A'], ['seq', 'A', 'B'], ['both', ['one', 'A'], ['maybe', ['one', 'B']]]])
